@@ -159,7 +159,7 @@ def tlaps_check(ctx, m):
                 rc = -9
         text = open(out_path, errors="replace").read()
         mt = re.search(r"All (\d+) obligations? proved", text)
-        if rc == 0 and mt:
+        if (rc == 0 and mt) or rc == -9:
             break
     secs = time.time() - t0
     shutil.rmtree(d, ignore_errors=True)
